@@ -62,6 +62,7 @@ func (s *LinearState) slock(ctx *Context, read bool) {
 	if ctx != nil && ctx.isPrivileged("hook") {
 		return
 	}
+	VerifYield("LinearState.lock")
 	if read {
 		s.RLock()
 	} else {
@@ -79,6 +80,7 @@ func (s *LinearState) sunlock(ctx *Context, read bool) {
 	} else {
 		s.Unlock()
 	}
+	VerifYield("LinearState.unlocked")
 }
 
 func NewLinearState(ctx *Context, name string, store Storage) (*LinearState, error) {
